@@ -763,7 +763,15 @@ static int run_cmd(struct ctx *c, char **t, int nt) {
       fprintf(o, "{\"op\":\"long\",\"kind\":\"%s\",\"len\":%zu,\"api\":\"readFile+getPath\",\"rc\":\"%s\",\"out_len\":%zu,\"head_ok\":%s,\"tail_ok\":%s,\"os_ok\":%s}\n", kind, len, ename(e),
               gp ? strlen(gp) : 0, (gp && !strcmp(gp, pth)) ? "true" : "false", (gp && !strcmp(gp, pth)) ? "true" : "false", w == 0 ? "true" : "false");
       char *fn = NULL; uint64_t ln = 0; econf_errLocation(&fn, &ln); free(fn);
-      free(gp); econf_freeFile(kf); free(pth);
+      free(gp); econf_freeFile(kf);
+      /* the same file by a RELATIVE name (the process stands in the scratch directory): the absolute path the library makes of it
+         has the same len bytes */
+      { char cwd0[PATH_MAX]; if (getcwd(cwd0, sizeof cwd0) && chdir(dir) == 0) {
+          const char *rel = pth + strlen(dir) + 1; kf = NULL; e = econf_readFile(&kf, rel, "=", "#"); gp = e ? NULL : econf_getPath(kf);
+          fprintf(o, "{\"op\":\"long\",\"kind\":\"%s\",\"len\":%zu,\"api\":\"readFile by relative name+getPath\",\"rc\":\"%s\",\"out_len\":%zu,\"head_ok\":%s,\"tail_ok\":%s,\"os_ok\":%s}\n", kind, len, ename(e),
+                  gp ? strlen(gp) : 0, (gp && !strcmp(gp, pth)) ? "true" : "false", (gp && !strcmp(gp, pth)) ? "true" : "false", w == 0 ? "true" : "false");
+          free(gp); econf_freeFile(kf); if (chdir(cwd0)) {} } }
+      free(pth);
     }
     free(dir); return 0; }
 
